@@ -8,10 +8,12 @@ pub mod c18;
 pub mod c17;
 pub mod c02;
 pub mod c03;
+pub mod c05;
 pub mod c06;
 pub mod c07;
 pub mod c13;
 pub mod c15;
+pub mod c16;
 pub mod c20;
 pub mod oracle;
 
@@ -42,6 +44,9 @@ pub fn suites() -> Vec<(&'static str, Suite)> {
         ("wide_sweep", c13::run_wide_sweep as Suite),
         ("grad_new", c15::run_grad_new as Suite),
         ("grad_px", c15::run_grad_px as Suite),
+        ("pat_px", c16::run_pat_px as Suite),
+        ("stroke_geo", c05::run_stroke_geo as Suite),
+        ("gather", c16::run_gather as Suite),
         ("stroker_hist", c20::run_stroker_hist as Suite),
         ("draw_hist", c20::run_draw_hist as Suite),
     ]
